@@ -4,6 +4,7 @@ import (
 	"bytes"
 	"fmt"
 	"io"
+	"strings"
 
 	"nhooyr.io/websocket"
 	"verif/engine/explore"
@@ -330,7 +331,29 @@ func c05Scenarios(tier string) []scenario {
 	return scs
 }
 
+// c05RaceScenarios: the same harness bodies one preemption lower, under -race.
+func c05RaceScenarios(tier string) []scenario {
+	var out []scenario
+	for _, sc := range c05Scenarios(tier) {
+		quickSet := strings.HasPrefix(sc.Name, "W2/") || strings.HasPrefix(sc.Name, "WC-CloseNow/") || strings.HasPrefix(sc.Name, "WC-Close/") || strings.HasPrefix(sc.Name, "WP/")
+		if tier != "thorough" && !quickSet {
+			continue
+		}
+		if tier == "thorough" {
+			sc.Cfg.P = 2
+		} else {
+			sc.Cfg.P = 1
+		}
+		out = append(out, raceWrap("C05", sc))
+	}
+	return out
+}
+
 func init() {
+	fw.Register(fw.Part{Prop: "C05R", Name: "s.race",
+		Units:  func(tier string) []fw.Unit { return scenarioUnits(c05RaceScenarios(tier)) },
+		Replay: replayFn(c05RaceScenarios),
+	})
 	fw.Register(fw.Part{Prop: "C05", Name: "s.conc",
 		Units:  func(tier string) []fw.Unit { return scenarioUnits(c05Scenarios(tier)) },
 		Replay: replayFn(c05Scenarios),
